@@ -49,7 +49,40 @@ Proof.
   exact (c02_call_source SIZE chk R df HR (proj1 (c02_provided_source chk SIZE Hs)) s st fuel HI Hf).
 Qed.
 
+(* repeated calls of the read_frame that is in the tree now = iterating the chunk-free specification `next`; hence any two ways a
+   transport cuts the same stream into chunks give the same sequence of results *)
+Section RUN.
+Variable SIZE : Z.
+Variable chk : bool.
+Variable df : list Z -> dres.
+Fixpoint impl_run_src (R : Reader stream_reader) (n : nat) (w : fb * stream_reader) : list (option outcome) :=
+  match n with
+  | O => []
+  | S m =>
+      match FbGen.read_frame SIZE chk R (S (length (sr_rest (snd w)))) df w with
+      | Val r w' => out_of r :: impl_run_src R m w'
+      | Panic w' => [None]
+      end
+  end.
+Theorem c02_run_source : forall (R : Reader stream_reader), implements R stream_ar -> df_contract SIZE df ->
+  forall n s st, Inv2 SIZE s ->
+  impl_run_src R n (s, st) = map Some (spec_run SIZE df n (unread s ++ sr_rest st)).
+Proof.
+  intros R HR Hc. induction n as [|n IH]; intros s st HI2; cbn [impl_run_src spec_run map]; [reflexivity|].
+  cbn [snd].
+  destruct (c02_call_source SIZE chk R df HR Hc s st (S (length (sr_rest st))) HI2 ltac:(unfold zlen; lia)) as (r & s' & st' & o & Hrun & Ho & Hn & I').
+  rewrite Hrun. rewrite <- Hn. cbn [map]. rewrite Ho. f_equal. apply IH. exact I'.
+Qed.
+Theorem c02_chunking_source : forall R1 R2, implements R1 stream_ar -> implements R2 stream_ar -> df_contract SIZE df ->
+  forall n s st1 st2, Inv2 SIZE s -> sr_rest st1 = sr_rest st2 ->
+  impl_run_src R1 n (s, st1) = impl_run_src R2 n (s, st2).
+Proof.
+  intros R1 R2 H1 H2 Hc n s st1 st2 HI2 Hr.
+  rewrite (c02_run_source R1 H1 Hc n s st1 HI2), (c02_run_source R2 H2 Hc n s st2 HI2), Hr. reflexivity.
+Qed.
+End RUN.
+
 Print Assumptions c02_call_source.
 
 (* the engine audits every GenEq module under this name *)
-Definition gen_eq := (c02_call_source, c02_provided_source, c02_line_source).
+Definition gen_eq := (c02_call_source, c02_provided_source, c02_line_source, c02_run_source, c02_chunking_source).
